@@ -10,6 +10,7 @@ import (
 	"strings"
 	"sync"
 	"sync/atomic"
+	"syscall"
 	"time"
 
 	"github.com/bluenviron/gomavlib/v3"
@@ -344,6 +345,101 @@ func genC14(o *hx.Out, tier string) {
 			tr = tr[:want]
 		}
 		o.Add("tcp client reconnects", strings.Join(tr, " "), "lives", "1", strings.Join(script, " "))
+	}
+
+	// (4b) TCP client against a server whose accept queue is full: connection attempts end in dial
+	// time-outs (not refusals); once the server accepts again the client must get through
+	nsat := 1
+	if tier == "thorough" {
+		nsat = 3
+	}
+	for sc := 0; sc < nsat; sc++ {
+		ln, err := net.Listen("tcp4", "127.0.0.1:0")
+		if err != nil {
+			continue
+		}
+		addr := ln.Addr().String()
+		saturated := false
+		var fillers []net.Conn
+		if rc, err := ln.(*net.TCPListener).SyscallConn(); err == nil {
+			rc.Control(func(fd uintptr) { syscall.Listen(int(fd), 0) }) //nolint:errcheck
+			for i := 0; i < 8; i++ {
+				c, err := net.DialTimeout("tcp4", addr, 250*time.Millisecond)
+				if err != nil {
+					if ne, ok := err.(net.Error); ok && ne.Timeout() {
+						saturated = true
+					}
+					break
+				}
+				fillers = append(fillers, c)
+			}
+		}
+		if !saturated { // this kernel does not drop the SYNs: nothing to observe
+			for _, c := range fillers {
+				c.Close()
+			}
+			ln.Close()
+			continue
+		}
+		node, err := gomavlib.NewNode(gomavlib.NodeConf{Endpoints: []gomavlib.EndpointConf{gomavlib.EndpointTCPClient{Address: addr}},
+			Dialect: d, OutVersion: gomavlib.V2, OutSystemID: 10, HeartbeatDisable: true, ReadTimeout: 200 * time.Millisecond})
+		if err != nil {
+			ln.Close()
+			continue
+		}
+		col := scn.NewCollector(node, 0, false)
+		time.Sleep(900 * time.Millisecond) // several attempts time out
+		early := col.Count()
+		accepted := make(chan net.Conn, 16)
+		go func() {
+			for {
+				c, err := ln.Accept()
+				if err != nil {
+					return
+				}
+				accepted <- c
+			}
+		}()
+		impl := ""
+		if early != 0 {
+			impl = "EVENT-WHILE-SATURATED "
+		}
+		if col.Wait(func() bool { return col.Count() > early }) {
+			impl += "O"
+		} else {
+			impl += "NEVER-CONNECTED-AFTER-DIAL-TIMEOUTS"
+		}
+		for _, c := range fillers {
+			c.Close()
+		}
+		// the server hangs up on everybody: the channel closes with a cause
+		time.Sleep(20 * time.Millisecond)
+	drain:
+		for {
+			select {
+			case c := <-accepted:
+				c.Close()
+			default:
+				break drain
+			}
+		}
+		if strings.HasSuffix(impl, "O") {
+			if col.Wait(func() bool {
+				for _, ch := range col.Channels() {
+					for _, e := range col.Events(ch) {
+						if _, ok := e.(*gomavlib.EventChannelClose); ok {
+							return true
+						}
+					}
+				}
+				return false
+			}) {
+				impl += " C0"
+			}
+		}
+		ln.Close()
+		scn.CloseWithin(node, 10*time.Second)
+		o.Add("tcp client: dial time-outs, then the server accepts", impl, "lives", "1", "F F F K0")
 	}
 
 	// (5) TCP server: every peer its own channel; a leaving peer closes only its channel; accepting goes on;
